@@ -87,11 +87,9 @@ class Reader:
                 if sglx_file.with_suffix(".cbin").exists()
                 else None
             )
-            self.file_bin = (
-                sglx_file.with_suffix(".bin")
-                if sglx_file.with_suffix(".bin").exists()
-                else None
-            )
+            # the uncompressed file takes precedence when both exist
+            if sglx_file.with_suffix(".bin").exists():
+                self.file_bin = sglx_file.with_suffix(".bin")
         else:
             self.file_bin = sglx_file
         self.nbytes = self.file_bin.stat().st_size if self.file_bin else None
